@@ -7,7 +7,15 @@
     the placement predicted by the model (`place interp_now` / `place comp_now`) is compared with the dumps.
 (b) behavioural tie, both engines, one child process per engine batch: cycle shapes x {cancel, deadline, close} x arrival
     moment; every call must return within the bound with *sys.ExitError of the cause's code and IsClosed() afterwards.
-(c) the closed-word state machine of a real module instance vs. the model, under sequences of causes."""
+(c) the closed-word state machine of a real module instance vs. the model, under sequences of causes.
+(d) the HOST as a node kind (coq/Engine/TermHost.v): the call-entry probe establishes on both engines which checks a call
+    entry performs (an exported function called with an already cancelled / expired context, on a module closed from
+    outside, with the word written by a watcher: did any guest code run?) and compares with `probe_model`; the engine
+    graphs get host nodes and entry edges carrying the probed checks and `hcheck` judges them in four situations; an
+    independent oracle searches a check-free cycle through the host.
+(e) host <-> guest recursion (guest -> imported Go function -> api.Function.Call -> guest ...): shapes x causes x
+    arrival moments x engines in watchdogged child processes, judged by the number of nesting levels entered after
+    the cause (a safety net in the host callback stops a recursion that is not stopped), exit code, module closed."""
 import bisect, json, subprocess, threading, time
 from vcheck import *
 
@@ -212,20 +220,20 @@ def structural(ck, binp, seed, n, dist):
 
 
 # ------------------------------------------------------------------------------------ behaviour
-def behaviour_engine(binp, engine, quick, bound_ms, results, notes, delays=(15,)):
+def behaviour_engine(binp, engine, quick, bound_ms, results, notes, delays=(15,), mode="behave"):
     hung = []
     for dl in delays:
-        behaviour_round(binp, engine, quick, bound_ms, results, notes, dl, hung)
+        behaviour_round(binp, engine, quick, bound_ms, results, notes, dl, hung, mode)
 
 
-def behaviour_round(binp, engine, quick, bound_ms, results, notes, delay, hung):
-    rc, out = sh([binp, "-mode", "behave", "-list"] + (["-quick"] if quick else []), timeout=60)
+def behaviour_round(binp, engine, quick, bound_ms, results, notes, delay, hung, mode="behave"):
+    rc, out = sh([binp, "-mode", mode, "-list"] + (["-quick"] if quick else []), timeout=60)
     ncases = sum(1 for l in out.split("\n") if l.startswith("{"))
     frm, guard = 0, 0
     while frm < ncases and guard < ncases + 2:
         guard += 1
         # a shape that hung once is not run again in this batch (every further combination would cost a full bound)
-        cmd = [binp, "-mode", "behave", "-engine", engine, "-from", str(frm), "-bound", str(bound_ms), "-delay", str(delay), "-skip", ",".join(hung)] + (["-quick"] if quick else [])
+        cmd = [binp, "-mode", mode, "-engine", engine, "-from", str(frm), "-bound", str(bound_ms), "-delay", str(delay), "-skip", ",".join(hung)] + (["-quick"] if quick else [])
         # generous: every case may take up to its bound twice (cause not yet delivered + the watchdog)
         rc, out = sh(cmd, timeout=120 + (ncases - frm) * 0.2 + 3 * bound_ms / 1000)
         got = [json.loads(l) for l in out.split("\n") if l.startswith("{")]
@@ -359,16 +367,313 @@ def closed_word(ck, binp, seed, n, dist):
     return cases
 
 
+# ------------------------------------------------------------------------------------ host nodes: entry probe
+SIT_NAMES = ["ctx-cancelled", "ctx-deadline", "closed-from-outside", "word-by-watcher-cancel", "word-by-watcher-deadline", "quiet"]
+CANCEL, DEADLINE = 0xffffffff, 0xefffffff
+ENTRY_MODELS = {"entry_now": ["KCtx"], "entry_repaired": ["KCtx", "KWord"]}
+
+
+def probe_oracle(c):
+    """The property at a call entry. A context that is done must stop the call AT entry (entry is the only check point on
+    a cycle through the host), with the context's code and the module closed; a closed word must surface as the exit
+    error of the call (a terminating body may run: that alone does not contradict the property); nothing -> nothing."""
+    sit = c["sit"]
+    if c.get("err"):
+        return "probe-error"
+    if sit in (0, 1):
+        want = CANCEL if sit == 0 else DEADLINE
+        if c["ran"]:
+            return "entry-precheck-missing"
+        if c["exit"] != want or not c["closed"]:
+            return "entry-wrong-outcome"
+    elif sit in (2, 3, 4):
+        want = c["code"] if sit == 2 else CANCEL if sit == 3 else DEADLINE
+        if c["exit"] != want or not c["closed"]:
+            return "entry-wrong-outcome"
+    else:
+        if c["exit"] != -1 or c["closed"] or not c["ran"]:
+            return "entry-wrong-outcome"
+    return None
+
+
+def entry_probe(ck, binp, dist):
+    """returns {engine: [echk]}: the checks found at call entry on each engine"""
+    rc, out = sh([binp, "-mode", "probe"], timeout=300)
+    cases = [json.loads(l) for l in out.split("\n") if l.startswith("{")]
+    pd = dist.setdefault("entry_probe", {"cases": len(cases), "by_situation": {}, "by_engine": {}, "ran_guest": 0, "stopped_at_entry": 0, "entry_checks": {}})
+    found = {"interp": ["KCtx"], "compiler": ["KCtx"]}
+    if rc != 0 or not cases:
+        ck.violation("harness-crash", {"kind": "crash", "mode": "probe"}, {"rc": rc, "tail": out[-3000:]})
+        return found, []
+    per = {}
+    for c in cases:
+        per.setdefault(c["engine"], []).append(c)
+        pd["by_situation"][SIT_NAMES[c["sit"]]] = pd["by_situation"].get(SIT_NAMES[c["sit"]], 0) + 1
+        pd["by_engine"][c["engine"]] = pd["by_engine"].get(c["engine"], 0) + 1
+        pd["ran_guest" if c["ran"] else "stopped_at_entry"] += 1
+    # model evaluation: every engine against entry_now and against the candidate repair
+    defs, names = [], []
+    for eng, cs in per.items():
+        items = "; ".join("{| pc_sit := %d; pc_code := %d; pc_ran := %s; pc_exit := %d |}" % (c["sit"], c["code"], "true" if c["ran"] else "false", c["exit"]) for c in cs if not c.get("err"))
+        for m in ENTRY_MODELS:
+            nm = "M_%s_%s" % (eng, m)
+            names.append((eng, m, nm))
+            defs.append("Definition %s := Eval vm_compute in pmismatches %s 0 [%s].\nPrint %s.\n" % (nm, m, items, nm))
+    v = ("From Coq Require Import List ZArith.\nFrom Verif Require Import Engine.TermCheck Engine.TermHost.\nImport ListNotations.\nOpen Scope Z_scope.\n" + "".join(defs))
+    rc, o = coq_eval("c07_probe", v, timeout=300)
+    mism = {}
+    for eng, m, nm in names:
+        lst = parse_zlist(o, nm)
+        if rc != 0 or lst is None:
+            ck.violation("model-eval", {"kind": "model-eval", "mode": "probe"}, {"rc": rc, "out": o[-2000:]}, no_input=True)
+            return found, cases
+        mism[(eng, m)] = lst
+    shown = set()
+    for eng, cs in per.items():
+        ok = [c for c in cs if not c.get("err")]
+        stops = lambda sits: all(not c["ran"] for c in ok if c["sit"] in sits) and any(c["sit"] in sits for c in ok)
+        ks = (["KCtx"] if stops((0, 1)) else []) + (["KWord"] if stops((2, 3, 4)) else [])
+        found[eng] = ks
+        pd["entry_checks"][eng] = ks
+        fits = [m for m in ENTRY_MODELS if not mism[(eng, m)]]
+        for c in cs:
+            why = probe_oracle(c)
+            if why is None:
+                continue
+            sig = {"kind": why, "situation": SIT_NAMES[c["sit"]], "engine": eng}
+            key = json.dumps(sig, sort_keys=True)
+            if key in shown: continue
+            shown.add(key)
+            ck.violation(why, sig, {"case": c, "expected": "a call whose context is already done returns *sys.ExitError of that cause WITHOUT running guest code, and the module is closed "
+                                                            "(call entry is the only check point on a cycle guest -> host function -> api.Function.Call -> guest)",
+                                    "replay": "h_c07 -mode probe  (module bytes and schedule in the case)", "model": "TermHost.probe_model entry_now"})
+        if not fits and not any(probe_oracle(c) for c in cs):
+            i = mism[(eng, "entry_now")][0]
+            ck.violation("entry-probe-model-differs", {"kind": "entry-probe-model-differs", "engine": eng},
+                         {"case": ok[i] if i < len(ok) else None, "entry_checks_found": ks, "meaning": "the entry behaves neither like entry_now nor like entry_repaired of TermHost.v"}, no_input=True)
+    return found, cases
+
+
+# ------------------------------------------------------------------------------------ host nodes: structure
+HSITS = [("ctx-cancelled (watcher ran)", "ctx-done", "KCtx"), ("ctx-deadline (watcher ran)", "ctx-done", "KCtx"),
+         ("closed from another goroutine", "closed-word", "KWord"), ("outer call cancelled, nested call got a fresh context", "closed-word", "KWord")]
+
+
+def host_cycle(nodes, entry_observed):
+    """Independent oracle: a cycle function entry -> ... -> call of a host function -> api.Function.Call -> the same entry on
+    which no check observes the situation. All in-guest checks read the closed word, which is written in every situation
+    of HSITS, so a check node always blocks; the entry edge blocks iff the entry check observes. Returns a node list."""
+    if entry_observed:
+        return None
+    n = len(nodes)
+    for e in [ed[1] for ed in nodes[REENTER][1] if ed[0] == "c"]:
+        prev, todo = {e: None}, [e]
+        while todo:
+            v = todo.pop()
+            if v == HOST:
+                path = []
+                while v is not None:
+                    path.append(v); v = prev[v]
+                return path[::-1] + [REENTER, e]
+            if v >= n or nodes[v][0]:
+                continue
+            for ed in nodes[v][1]:
+                for t in ((ed[1],) if ed[0] in ("s", "t") else (ed[1], ed[2]) if ed[0] == "c" else ()):
+                    if t not in prev and t != REENTER:
+                        prev[t] = v; todo.append(t)
+    return None
+
+
+def coq_echks(ks): return "[" + "; ".join(ks) + "]"
+
+
+def host_structural(ck, keep, entries, dist):
+    hd = dist.setdefault("host_structure", {"programs": 0, "graphs": 0, "situations": len(HSITS), "hcheck_accepts": 0, "hcheck_rejects": 0,
+                                            "host_cycles_by_oracle": 0, "rejected_without_cycle": 0, "by_situation": {}})
+    cs = [c for c in keep if c["ensure"]]
+    cs.sort(key=lambda c: 0 if c["src"] == "hshape:hostrec_pure" else 1 if c["src"].startswith("hshape:") else 2)   # report on the plainest program
+    engs = ["interp", "compiler", "compiler"]
+    items = ["{| hc_entries := [%s]; hc_graphs := [%s] |}" % ("; ".join(coq_echks(entries[e]) for e in engs), "; ".join(coq_graph(g) for g in c["_graphs"])) for c in cs]
+    rej = {}
+    SH = 25
+    for s in range(0, len(items), SH):
+        v = ("From Coq Require Import List ZArith.\nFrom Verif Require Import Engine.TermCheck Engine.TermHost.\nImport ListNotations.\nOpen Scope nat_scope.\n"
+             "Definition cases : list hcase := [\n" + ";\n".join(items[s:s + SH]) + "].\n"
+             "Definition M := Eval vm_compute in hmismatches 0%Z cases.\nPrint M.\n")
+        rc, o = coq_eval("c07_h%d" % s, v, timeout=600)
+        lst = parse_zlist(o, "M")
+        if rc != 0 or lst is None:
+            ck.violation("model-eval", {"kind": "model-eval", "mode": "host"}, {"rc": rc, "out": o[-2000:]}, no_input=True)
+            return {}
+        for i in range(0, len(lst), 2):
+            rej.setdefault(s + lst[i], set()).add(lst[i + 1])
+    names = {0: "interpreter body", 1: "compiler SSA after the frontend", 2: "compiler SSA after the passes"}
+    shown, verdict = set(), {}
+    for idx, c in enumerate(cs):
+        hd["programs"] += 1
+        for k, g in enumerate(c["_graphs"]):
+            hd["graphs"] += 1
+            stack_neutral = unchecked_cycle(g) is not None      # reported by structural()
+            for j, (sname, need, chk) in enumerate(HSITS):
+                rejected = (100 * (j + 1) + k) in rej.get(idx, ())
+                cyc = host_cycle(g, chk in entries[engs[k]])
+                verdict[(c["src"], k, j)] = cyc is None
+                hd["hcheck_rejects" if rejected else "hcheck_accepts"] += 1
+                if cyc is not None:
+                    hd["host_cycles_by_oracle"] += 1
+                    hd["by_situation"][sname] = hd["by_situation"].get(sname, 0) + 1
+                elif rejected and not stack_neutral:
+                    hd["rejected_without_cycle"] += 1    # hcheck demands every entry edge checked: sufficient, not necessary
+                if cyc is None:
+                    continue
+                kind = "host-cycle-unchecked" if rejected else "hcheck-accepts-host-cycle"
+                sig = {"kind": kind, "entry_check_needed": need, "engine": engs[k]}
+                key = json.dumps(sig, sort_keys=True)
+                if key in shown: continue
+                shown.add(key)
+                ck.violation(kind, sig, {"where": names[k], "situation": sname, "entry_checks_found_by_probe": entries[engs[k]], "cycle_nodes": cyc,
+                                         "src": c["src"], "ast": c.get("ast"), "wasm": c["wasm"], "graph": coq_graph(g),
+                                         "schedule": "instantiate the module with its imports bound to Go functions that call the exported function back "
+                                                     "(mod.ExportedFunction(..).Call(ctx)); start the call; then: " + sname,
+                                         "meaning": "a cycle guest function -> imported Go function (node 0) -> api.Function.Call (node 1) -> guest function on which no check "
+                                                    "observes the situation: the in-guest checks are not on it and the call entry does not perform a %s check" % chk})
+    return verdict
+
+
+# ------------------------------------------------------------------------------------ host <-> guest recursion
+SLACK_LEVELS = 3   # a correct engine enters 0 or 1 further nesting level after the cause; the harness's safety net stops at 40
+
+
+def hostrec_need(d):
+    return "closed-word" if d["cause"] == "close" or d.get("ctx") == "fresh" else "ctx-done"
+
+
+def hostrec_running(d):
+    # where only a watcher goroutine can deliver the cause (fresh context) the level count depends on goroutine scheduling:
+    # such a case is judged by the safety net alone (>= 40 levels at >= 1 ms each with the closed word unread)
+    return d["gave_up"] or (d["levels_after"] > SLACK_LEVELS and not d.get("relies_on_watcher"))
+
+
+def hostrec_oracle(d):
+    if d.get("setup"):
+        return "setup"
+    if not d["returned"]:
+        return "hang"
+    if hostrec_running(d):
+        return "host-recursion-keeps-running"
+    if d["class"] != "exit:%d" % d["want"]:
+        return "wrong-outcome"
+    if not d["closed"]:
+        return "module-not-closed"
+    return None
+
+
+def host_behavioural(ck, binp, tier, dist):
+    quick = tier == "quick"
+    bound = 8000 if quick else 12000
+    res, notes, ths = {"interp": [], "compiler": []}, [], []
+    for eng in res:
+        th = threading.Thread(target=behaviour_engine, args=(binp, eng, quick, bound, res[eng], notes, (15,) if quick else (2, 15, 40), "hostrec"))
+        th.start(); ths.append(th)
+    for th in ths: th.join()
+    hd = dist.setdefault("host_recursion", {"cases": 0, "shapes": {}, "by_cause": {}, "by_arrival": {}, "by_engine": {}, "by_context": {}, "shape_x_cause_x_engine_x_arrival": 0,
+                                            "outcomes": {}, "levels_after_cause": {}, "max_nesting": 0, "stopped_by_safety_net": 0, "max_latency_ms": 0.0, "bound_ms": bound,
+                                            "slack_levels": SLACK_LEVELS})
+    shown, allres, combos = set(), [], set()
+    for eng, rs in res.items():
+        if not rs:
+            ck.violation("harness-crash", {"kind": "crash", "mode": "hostrec", "engine": eng}, {}, no_input=True)
+        for d in rs:
+            allres.append(d)
+            if d.get("shape") == "?":
+                ck.violation("harness-crash", {"kind": "crash", "mode": "hostrec", "engine": eng}, {"case": d}, no_input=True)
+                continue
+            hd["cases"] += 1
+            for k, f in (("shapes", "shape"), ("by_cause", "cause"), ("by_arrival", "arrival"), ("by_engine", "engine"), ("by_context", "ctx")):
+                hd[k][d[f]] = hd[k].get(d[f], 0) + 1
+            combos.add((d["shape"], d["cause"], d["engine"], d["arrival"]))
+            oc = d["class"].split(":")[0]
+            hd["outcomes"][oc] = hd["outcomes"].get(oc, 0) + 1
+            la = str(d["levels_after"]) if d["levels_after"] <= SLACK_LEVELS else ">%d" % SLACK_LEVELS
+            hd["levels_after_cause"][la] = hd["levels_after_cause"].get(la, 0) + 1
+            hd["max_nesting"] = max(hd["max_nesting"], d["max_level"])
+            hd["stopped_by_safety_net"] += 1 if d["gave_up"] else 0
+            hd["max_latency_ms"] = max(hd["max_latency_ms"], d.get("latency_ms", 0))
+            why = hostrec_oracle(d)
+            d["_why"] = why
+            if why is None:
+                continue
+            if why == "setup":
+                sig = {"kind": "harness-setup", "engine": eng, "mode": "hostrec"}
+            elif why == "hang":
+                sig = {"kind": "hang", "shape": d["shape"], "engine": eng}
+            elif why == "host-recursion-keeps-running":
+                sig = {"kind": why, "entry_check_needed": hostrec_need(d), "cause": d["cause"], "engine": eng}
+            elif why == "module-not-closed":
+                sig = {"kind": why, "cross_instance": d["cross"], "cause": d["cause"], "engine": eng}
+            else:
+                sig = {"kind": why, "cause": d["cause"], "engine": eng, "host_recursion": True}
+            key = json.dumps(sig, sort_keys=True)
+            if key in shown: continue
+            shown.add(key)
+            ck.violation(sig["kind"], sig, {"case": {k: v for k, v in d.items() if not k.startswith("_")},
+                                          "expected": "after the cause the call returns with *sys.ExitError code %d within %d ms, at most %d further host<->guest nesting levels are entered "
+                                                      "(a correct engine: 0 or 1; the harness's safety net gives up after 40), and the module of the call is closed" % (d.get("want", 0), bound, SLACK_LEVELS),
+                                          "replay": "h_c07 -mode hostrec -engine %s -only %d%s  (module bytes: case.wasm, schedule: case.schedule)" % (eng, d["idx"], " -quick" if quick else "")},
+                         no_input=(why == "setup"))
+    hd["shape_x_cause_x_engine_x_arrival"] = len(combos)
+    return allres
+
+
+def host_model_vs_behaviour(ck, verdict, hres, dist):
+    """the structural oracle's prediction (is there a check-free cycle through the host in this situation?) against what the engine did"""
+    md = dist.setdefault("host_model_vs_engine", {"compared": 0, "agree_stops": 0, "agree_keeps_running": 0, "engine_stops_where_graph_overapproximates": 0, "differ": 0})
+    shown = set()
+    for d in hres:
+        if d.get("shape") in (None, "?") or d.get("_why") in ("setup", "hang"):
+            continue
+        j = 2 if d["cause"] == "close" else 3 if d.get("ctx") == "fresh" else 0 if d["cause"] == "cancel" else 1
+        k = 0 if d["engine"] == "interp" else 2
+        pred = verdict.get(("hshape:" + d["shape"], k, j))
+        if pred is None:
+            continue
+        stopped = not hostrec_running(d)
+        md["compared"] += 1
+        if pred == stopped:
+            md["agree_stops" if stopped else "agree_keeps_running"] += 1
+            continue
+        if stopped:
+            # the graph has ONE host node standing for every imported function ("any of them may call back"): a call of an
+            # import that never re-enters still counts as a way into the host. The engine stopping is what the property asks for.
+            md["engine_stops_where_graph_overapproximates"] += 1
+            continue
+        md["differ"] += 1
+        sig = {"kind": "host-model-differs", "engine": d["engine"], "predicted_stops": pred}
+        key = json.dumps(sig, sort_keys=True)
+        if key in shown: continue
+        shown.add(key)
+        # the engine stopping where the graph has a check-free host cycle is harmless; the reverse is reported by the behavioural oracle as well
+        ck.violation("host-model-differs", sig, {"case": {k2: v for k2, v in d.items() if not k2.startswith("_")}, "situation": HSITS[j][0],
+                                                "meaning": "graph built from the engine dump + probed entry checks predicts %s, the engine %s" % (
+                                                    "a check on every cycle through the host" if pred else "a check-free cycle through the host", "stopped" if stopped else "kept running")},
+                     no_input=stopped)
+
+
+
 def run(tier, seed):
     ck = Check("C07", tier, seed)
     ck.trusted += ["coq/Engine/TermCheck.v: the control-graph abstraction (call = push, return = pop, tail call = replace; a host function is one node that may re-enter "
                    "through a checked boundary) and `place`; tied by comparing `place` with the real lowerings and by running the verified checker on graphs built from them",
+                   "coq/Engine/TermHost.v: host nodes, call entry = an edge carrying its checks on a fresh call engine (segment of the continuation stack), and what each check reads "
+                   "(ctx.Err() of the call's context / the closed word); tied by the entry probe (probe_model vs both engines) and by judging the engine graphs with the probed entry checks",
                    "harness/c07 overlay files (read-only accessors inside package interpreter / frontend / wazevo / wasm / wazero) and checks/c07.py (graph construction from the dumps, independent cycle oracle)",
                    "tools/go2coq for the exit-code and flag constants (sys.ExitCodeContextCanceled, ExitCodeDeadlineExceeded, exitCodeFlag*)"]
     ck.assumptions += ["promptness is measured, not proved: goroutine scheduling, the watcher goroutine and the Go runtime are outside the model",
                        "the compiler's check placement is verified on the SSA (after the frontend and after the SSA passes); that the backend keeps the check calls is observed behaviourally only",
                        "the bound of C07_checker_sound is exponential in the stack ceiling and tight: recursion without loops is stopped only by stack overflow or termination (open finding: tree recursion)",
-                       "a host function that loops by itself is the embedder's code and outside the property"]
+                       "a host function that loops by itself is the embedder's code and outside the property",
+                       "host <-> guest recursion: the host callback propagates the error of the nested call by panicking (as wasi proc_exit does); nesting levels after the cause are counted from the "
+                       "moment the cause has been delivered (cancel() / CloseWithExitCode returned, ctx.Done() observed), so a correct engine shows 0 or 1"]
     proofs_ok = ck.proofs()
     binp, log = build_harness("c07")
     if not binp:
@@ -380,19 +685,31 @@ def run(tier, seed):
     out = {}
     th = threading.Thread(target=lambda: out.setdefault("b", behavioural(ck, binp, tier, dist)))
     th.start()
+    th2 = threading.Thread(target=lambda: out.setdefault("h", host_behavioural(ck, binp, tier, dist)))
+    th2.start()
+    entries, pc = entry_probe(ck, binp, dist)
     sc = structural(ck, binp, seed, 60 if quick else 1200, dist)
+    verdict = host_structural(ck, sc, entries, dist)
     wc = closed_word(ck, binp, seed, 40 if quick else 600, dist)
-    th.join()
+    th.join(); th2.join()
     bc = out.get("b") or []
-    ck.cases = len(sc) * 3 + len(bc) + len(wc)
-    ck.distinct = len(set(c["wasm"] for c in sc)) + len(set((d["engine"], d["shape"], d["cause"], d["arrival"]) for d in bc)) + len(set(json.dumps(c["steps"]) for c in wc))
+    hc = out.get("h") or []
+    host_model_vs_behaviour(ck, verdict, hc, dist)
+    ck.cases = len(sc) * 3 + len(bc) + len(wc) + len(pc) + len(hc) + dist.get("host_structure", {}).get("graphs", 0) * len(HSITS)
+    ck.distinct = (len(set(c["wasm"] for c in sc)) + len(set((d["engine"], d["shape"], d["cause"], d["arrival"]) for d in bc)) + len(set(json.dumps(c["steps"]) for c in wc)) +
+                   len(set((c["engine"], c["sit"], c["code"]) for c in pc)) + len(set((d["engine"], d["shape"], d["cause"], d["arrival"]) for d in hc)))
     ck.samples = ([dict(src=c["src"], ast=(c.get("ast") or "")[:160], interp_trace=traces(c["interp"])) for c in sc[7:9]] +
                   [dict(engine=d["engine"], shape=d["shape"], cause=d["cause"], arrival=d["arrival"], outcome=d["class"], closed=d["closed"], latency_ms=d.get("latency_ms")) for d in bc[1:4]] +
-                  [dict(kind=c["kind"], steps=c["steps"], obs=c["obs"]) for c in wc[:1]])
+                  [dict(kind=c["kind"], steps=c["steps"], obs=c["obs"]) for c in wc[:1]] +
+                  [dict(engine=d["engine"], shape=d["shape"], cause=d["cause"], arrival=d["arrival"], outcome=d["class"], closed=d["closed"], levels_after_cause=d["levels_after"],
+                        max_nesting=d["max_level"]) for d in hc[2:4]] +
+                  [dict(engine=c["engine"], situation=SIT_NAMES[c["sit"]], ran_guest_code=c["ran"], exit=c["exit"], closed=c["closed"]) for c in pc[:1]])
     ck.extra["rule"] = ("structural: hand-written cycle shapes + random structured programs (own AST generator: loops, br/br_if/br_table, calls, call_indirect, return_call, "
                         "return_call_indirect, imports) + programs of the common generator, each compiled by both engines through the public API, 3 graphs per program; "
-                        "behavioural: shapes x causes x arrival moments x 2 engines; closed word: cause sequences on a real instance. A case is non-trivial when it is a distinct "
-                        "program / (engine, shape, cause, arrival) / cause sequence")
+                        "behavioural: shapes x causes x arrival moments x 2 engines; closed word: cause sequences on a real instance; entry probe: 6 situations x 2 engines; "
+                        "host structure: every engine graph with host nodes and the probed entry checks x 4 situations (hcheck inside Coq + independent host-cycle oracle); "
+                        "host recursion: guest->host->guest shapes x causes x arrival moments x 2 engines. A case is non-trivial when it is a distinct "
+                        "program / (engine, shape, cause, arrival) / cause sequence / (engine, situation, code)")
     if not proofs_ok and not any(not v.get("no_input") for v in ck.violations):
         ck.violation("proof-broken", {"kind": "proof-broken"}, getattr(ck, "proof_failure", {}), no_input=True)
     return ck.finish()
